@@ -155,7 +155,10 @@ def vmware(camp, rng, batch, n):
         exp = rfbreal.merge_writes(pre + [("W", req)] + base["events"][len(pre):]) if base["events"][:len(pre)] == pre else None
         camp.evaluations += 1
         camp.count("vmware-workaround")
-        if exp is not None and (r["events"] != exp or r["screen"] != base["screen"]):
+        def loose(evs):
+            # which desktop the refresh request names is C06's / C19's business: any non-incremental request counts here
+            return [("W", b"\x03\x00<refresh>") if (e[0] == "W" and len(e[1]) == 10 and e[1][:2] == b"\x03\x00") else e for e in evs]
+        if exp is not None and (loose(r["events"]) != loose(exp) or r["screen"] != base["screen"]):
             camp.oracle_failures.append({"kind": "oracle", "property": "C01", "case": case_payload(cfg3, chunks),
                                          "what": "VMWareClient workaround: the 1x1 top-left update chunk should be answered with a "
                                                  f"full refresh request and not applied: {first_diff(r['events'], exp)}"})
